@@ -378,6 +378,44 @@ def score_single_class_length_mismatch(values):
   return values.get('ny') == 1 and values.get('X_ndim') in (2, 3) and values.get('X_e0') != 1
 
 
+def nonfinite_container_case(name):
+  """NOT solver-decided (the shape-abstract arrays carry one 'non-finite' flag and no dtype): a NaN or an infinity is rejected with
+  ValueError whatever holds it -- float64 array, object-dtype array, nested list, float32 array -- by fit and by transform (sampled)"""
+  def fn(ctx):
+    import warnings
+    cls = mahal.classes()[name]
+    D, y = _dataset(name)
+    D = np.ascontiguousarray(D, dtype=np.float64)
+
+    def fit(data):
+      est = cls(**FAST.get(name, {}))
+      with warnings.catch_warnings():
+        warnings.simplefilter('ignore')
+        return est.fit(data, y) if y is not None else est.fit(data)
+    ref = fit(D)
+    q = D.reshape(-1, D.shape[-1])[:5].copy()
+    for bad in (np.nan, np.inf, -np.inf):
+      Db = D.copy()
+      Db[(1,) + (0,) * (D.ndim - 1)] = bad
+      qb = q.copy()
+      qb[2, 0] = bad
+      for cname, conv in (('float64', lambda a: a), ('object_array', lambda a: a.astype(object)), ('list', lambda a: a.tolist()),
+                          ('float32', lambda a: a.astype(np.float32))):
+        for what, call in (('fit', lambda: fit(conv(Db))), ('transform', lambda: ref.transform(conv(qb)))):
+          try:
+            with warnings.catch_warnings():
+              warnings.simplefilter('ignore')
+              call()
+            outcome = 'returned'
+          except ValueError:
+            outcome = 'ValueError'
+          except Exception as e:   # noqa
+            outcome = type(e).__name__
+          ctx.require('non_finite_entry_rejected_with_ValueError_in_every_container', ctx.cond(outcome == 'ValueError'),
+                      detail='%s %s in %s: %s' % (what, bad, cname, outcome))
+  return fn
+
+
 def cases(tier, seed):
   out = []
   qn = ('transform', 'pair_distance', 'pair_score', 'score_pairs')
@@ -416,6 +454,10 @@ def cases(tier, seed):
     out.append(case('equiv_%s' % name, equiv_case(name), ['%s.fit / transform (concrete differential run)' % name],
                     'one fixed integer-valued dataset; float64 C array vs int64 / list / Fortran / strided view / float32',
                     concrete_only=True, validate=1, cost=4))
+  for name in mahal.ALL17:
+    out.append(case('nonfinite_containers_%s' % name, nonfinite_container_case(name), ['%s.fit / transform (concrete run)' % name],
+                    'NaN / +inf / -inf at one position of the fixed data set, held by a float64 array, an object-dtype array, a nested list, a float32 array: fit and transform '
+                    '(concrete, sampled; not solver-decided)', concrete_only=True, validate=1, cost=3))
   return out
 
 
